@@ -50,11 +50,14 @@ func c19Workloads(kind string) []W {
 			&LS{Exprs: []Req{{K2, "Exists", nil}}},
 			&LS{ML: map[string]string{K1: "2"}, Exprs: []Req{{K2, "DoesNotExist", nil}}})
 	}
+	// names repeat across the two namespaces (a/w3 and b/w3 are different workloads)
 	var out []W
 	for _, ns := range []string{"a", "b"} {
+		i := 0
 		for _, s := range sels {
 			for _, t := range tmpls {
-				out = append(out, W{NS: ns, Name: fmt.Sprintf("w%d", len(out)), Sel: s, Tmpl: t})
+				out = append(out, W{NS: ns, Name: fmt.Sprintf("w%d", i), Sel: s, Tmpl: t})
+				i++
 			}
 		}
 	}
@@ -179,7 +182,7 @@ func c19Extra(tier string, _ int64) *runner.ExtraResult {
 			has bool
 			n   string
 		}{{false, ""}, {true, "x"}, {true, ""}} {
-			for _, rules := range [][][]string{nil, {{"y"}}, {{"x", "y"}}, {{"x"}, {"z"}}, {nil}, {{"x", ""}}} {
+			for _, rules := range [][][]string{nil, {{"y"}}, {{"x", "y"}}, {{"x"}, {"z"}}, {nil}, {{"x", ""}}, {nil, {"y"}}} {
 				ings = append(ings, Ing{NS: ns, Name: fmt.Sprintf("i%d", len(ings)), HasDef: def.has, Default: def.n, Rules: rules})
 			}
 		}
